@@ -50,10 +50,11 @@ def _tup(names: list[str]) -> Any:
 
 
 class Compiler:
-    def __init__(self, rt: Any, mode: str) -> None:
+    def __init__(self, rt: Any, mode: str, *, decorators: bool = False) -> None:
         assert mode in ("sync", "async")
         self.rt = rt
         self.mode = mode
+        self.decorators = decorators  # build nodes through the public decorators instead of the node classes
         self.funcs: dict[str, Any] = {}
         self.ns: dict[str, Any] = {"rt": rt, "_conv": conv_decision}
         self.nodes: dict[str, Any] = {}  # name -> hypergraph node (all levels)
@@ -76,8 +77,24 @@ class Compiler:
         self.rt.node_specs.setdefault(bkey, node)
         is_async = self._is_async(node)
         params = node.get("params", [])
-        fname = f"f_{bkey}"
+        if node.get("closure"):
+            # a closure produced by a file-defined factory: same source text as its siblings, different captured key
+            from . import closures
+
+            closures.CURRENT = self.rt
+            func = (closures.make_unary_async if is_async else closures.make_unary)(bkey)
+            return self._make_fn(node, func, False)
+        deco = self.decorators and bkey == node["name"]
+        fname = node["name"] if deco else f"f_{bkey}"
         gen = bool(node.get("gen"))
+        if is_async and node.get("wrap_async") and not gen:
+            # a plain function that returns a coroutine (e.g. an async def behind a decorator or a forwarding lambda)
+            src = (
+                f"async def {fname}__inner({_sig(params)}):\n    _uid = 'uid:{bkey}'\n    return await rt.abody('{bkey}', {_argdict(params)})\n"
+                f"def {fname}({_sig(params)}):\n    return {fname}__inner({', '.join(p['name'] + '=' + p['name'] for p in params)})\n"
+            )
+            func = self._func(("fnw", bkey, fname), src, fname)
+            return self._make_fn(node, func, deco)
         if gen:
             if is_async:
                 body = f"    async for _v in rt.agen_body('{bkey}', {_argdict(params)}):\n        yield _v\n"
@@ -88,16 +105,19 @@ class Compiler:
         else:
             body = f"    return rt.body('{bkey}', {_argdict(params)})\n"
         head = f"{'async ' if is_async else ''}def {fname}({_sig(params)}):\n    _uid = 'uid:{bkey}'\n"
-        func = self._func(("fn", bkey, is_async, gen), head + body, fname)
-        return FunctionNode(
-            func,
-            name=node["name"],
-            output_name=_tup(node.get("outs", [])),
+        func = self._func(("fn", bkey, is_async, gen, fname), head + body, fname)
+        return self._make_fn(node, func, deco)
+
+    def _make_fn(self, node: dict, func: Any, deco: bool) -> Any:
+        kw = dict(
             cache=bool(node.get("cache", False)),
             emit=_tup(node.get("emit", [])),
             wait_for=_tup(node.get("wait_for", [])),
             rename_inputs=node.get("rename_inputs") or None,
         )
+        if deco:
+            return hg.node(output_name=_tup(node.get("outs", [])), **kw)(func)
+        return FunctionNode(func, name=node["name"], output_name=_tup(node.get("outs", [])), **kw)
 
     def gate_node(self, node: dict) -> Any:
         bkey = node.get("fid", node["name"])
@@ -113,9 +133,14 @@ class Compiler:
             emit=_tup(node.get("emit", [])),
             wait_for=_tup(node.get("wait_for", [])),
         )
+        deco = self.decorators and bkey == node["name"]
         if node["kind"] == "ifelse":
+            if deco:
+                return hg.ifelse(_target(node["when_true"]), _target(node["when_false"]), **common)(func)
             return IfElseNode(func, _target(node["when_true"]), _target(node["when_false"]), **common)
         fb = node.get("fallback")
+        if deco:
+            return hg.route([_target(t) for t in node["targets"]], fallback=_target(fb) if fb is not None else None, multi_target=bool(node.get("multi", False)), **common)(func)
         return RouteNode(
             func,
             [_target(t) for t in node["targets"]],
@@ -129,13 +154,15 @@ class Compiler:
         self.rt.node_specs.setdefault(bkey, node)
         self.rt.interrupt_scripts.setdefault(bkey, list(node.get("script", [])))
         params = node.get("params", [])
-        fname = f"i_{bkey}"
+        fname = bkey if self.decorators else f"i_{bkey}"
         is_async = bool(node.get("async_handler", False))
         if is_async:
             src = f"async def {fname}({_sig(params)}):\n    _uid = 'uid:{bkey}'\n    return await rt.aint_body('{bkey}', {_argdict(params)})\n"
         else:
             src = f"def {fname}({_sig(params)}):\n    _uid = 'uid:{bkey}'\n    return rt.int_body('{bkey}', {_argdict(params)})\n"
-        func = self._func(("int", bkey, is_async), src, fname)
+        func = self._func(("int", bkey, is_async, fname), src, fname)
+        if self.decorators:
+            return hg.interrupt(output_name=_tup(node["outs"]), emit=_tup(node.get("emit", [])), wait_for=_tup(node.get("wait_for", [])), rename_inputs=node.get("rename_inputs") or None)(func)
         return InterruptNode(
             func,
             name=node["name"],
@@ -201,7 +228,10 @@ class Compiler:
         order = g.get("order")
         if order:
             nodes = [nodes[i] for i in order]
-        graph = hg.Graph(nodes, name=g.get("name"))
+        if g.get("explicit_edges"):
+            graph = hg.Graph(nodes, name=g.get("name"), edges=self._edges(nodes))
+        else:
+            graph = hg.Graph(nodes, name=g.get("name"))
         touch = bool(g.get("touch"))
         if touch:
             self._touch_graph(graph)
@@ -220,6 +250,28 @@ class Compiler:
         return graph
 
     @staticmethod
+    def _edges(nodes: list) -> list:
+        """Explicit edge list that mirrors name inference: one edge per (producer, consumer) with the shared value
+        names, plus a (gate, target) edge per gate target - the way a user would spell the topology out by hand."""
+        prod = {}
+        for n in nodes:
+            for o in n.outputs:
+                prod.setdefault(o, n.name)
+        edges: dict[tuple, list] = {}
+        for n in nodes:
+            for p in n.inputs:
+                src = prod.get(p)
+                if src is not None:
+                    edges.setdefault((src, n.name), []).append(p)
+        out: list = [(a, b, vals) for (a, b), vals in edges.items()]
+        names = {n.name for n in nodes}
+        for n in nodes:
+            for t in getattr(n, "targets", []) or []:
+                if isinstance(t, str) and t in names and (n.name, t) not in edges:
+                    out.append((n.name, t))
+        return out
+
+    @staticmethod
     def _touch_graph(graph: Any) -> None:
         """Read the (cached) derived attributes of a graph object before deriving the next object from it."""
         _ = (graph.inputs, graph.outputs, graph.definition_hash, graph.controlled_by, graph.self_producers, graph.has_cycles, graph.selected, graph.entrypoints_config)
@@ -232,7 +284,7 @@ def compile_graph(gspec: dict, rt: Any, mode: str) -> Any:
 
 
 def compile_with(gspec: dict, rt: Any, mode: str) -> tuple[Any, Compiler]:
-    c = Compiler(rt, mode)
+    c = Compiler(rt, mode, decorators=bool(gspec.get("decorators")))
     return c.graph(gspec), c
 
 
